@@ -483,3 +483,28 @@ def self_method_calls(prog: Program, f: FuncInfo) -> List[Tuple[ast.Call, FuncIn
 def short(q: str) -> str:
     parts = q.split('.')
     return '.'.join(parts[-2:]) if len(parts) > 1 else q
+
+
+def bound_args(callee, call: ast.Call, skip_first: bool = True) -> Optional[Dict[str, ast.expr]]:
+    """The call's arguments by parameter name of `callee` (a FuncInfo), positional and keyword forms alike; None when the call spreads
+    (`*a` / `**k`) or names a parameter the callee does not have."""
+    a = callee.node.args
+    pos = [p.arg for p in list(a.posonlyargs) + list(a.args)]
+    if skip_first and pos:
+        pos = pos[1:]
+    names = set(pos) | {p.arg for p in a.kwonlyargs}
+    if any(isinstance(x, ast.Starred) for x in call.args) or any(k.arg is None for k in call.keywords):
+        return None
+    out: Dict[str, ast.expr] = {}
+    for p, v in zip(pos, call.args):
+        out[p] = v
+    if len(call.args) > len(pos) and a.vararg is None:
+        return None
+    for k in call.keywords:
+        if k.arg not in names or k.arg in out:
+            if a.kwarg is None:
+                return None
+            continue
+        out[k.arg] = k.value
+    order = pos + [p.arg for p in a.kwonlyargs]
+    return {p: out[p] for p in order if p in out}
